@@ -256,6 +256,25 @@ func c16Main(args []string) error {
 				}
 			}
 		}
+		if ncoords > 0 && b.tc == nil && sr.otG != nil && sr.otE != nil && sr.otG.posInit > 36 && sr.otE.posEnd > 0 {
+			// streaming: the program information (argument and output sizes, counts) in front of the garbler's input
+			// labels, and the first fields of the evaluator's result message.  Integer fields are made smaller
+			// (each byte halved) as well as changed by one: a smaller declared size or count is the dangerous
+			// direction - fewer result labels come back.
+			for off := 36; off < sr.otG.posInit && off < len(sr.g2e); off++ {
+				v := sr.g2e[off]
+				if v > 1 {
+					coords = append(coords, c16Coord{Base: bi, GE: true, Off: off, Mask: []byte{v ^ (v >> 1)}})
+				}
+			}
+			for off := sr.otE.posEnd; off < sr.otE.posEnd+12 && off < len(sr.e2g); off++ {
+				v := sr.e2g[off]
+				coords = append(coords, c16Coord{Base: bi, GE: false, Off: off, Mask: []byte{0x01}})
+				if v > 1 {
+					coords = append(coords, c16Coord{Base: bi, GE: false, Off: off, Mask: []byte{v ^ (v >> 1)}})
+				}
+			}
+		}
 	}
 	cf := args[1] + ".coords"
 	cw, err := newND(cf)
